@@ -151,7 +151,7 @@ theorem Qc_nil_of_take {k : Nat} {c1 c2 : Cfg} {q : Nat} {s : Sig} {X : List Tr}
 
 theorem OrdInv_take {k : Nat} (c1 : Cfg) (f : Sig → List Instr)
     (hf : ∀ s, Qc k (f s) = (if s.okReady = true then [s.line] else []))
-    (hN : NoReadyReentry (final (do let x ← c1.take; pure (push x.2 (f x.1)))).tr)
+    (hN : NoReadyReentry (final (do let x ← c1.take; pure (push x.2 (f x.1)))).tr ∨ nPre k c1.code = 0)
     (hD : DepthOK k c1) (hP : postFree c1.code) (h : OrdInv k c1) :
     OrdInv k (final (do let x ← c1.take; pure (push x.2 (f x.1)))) := by
   obtain ⟨c2, h2, h3⟩ := Input.take_cases c1
@@ -166,7 +166,7 @@ theorem OrdInv_take {k : Nat} (c1 : Cfg) (f : Sig → List Instr)
   rcases h3 with ⟨_, h3⟩ | ⟨e, es, he, h3⟩
   · rw [h3]; exact hc2
   · rw [h3] at hN ⊢
-    have hN' : NoReadyReentry (.take c2.L.active e.2.2 :: c2.tr) := hN
+    have hN' : NoReadyReentry (.take c2.L.active e.2.2 :: c2.tr) ∨ nPre k c1.code = 0 := hN
     show OrdInv k (push (c2.pop e es) (f e.2.2))
     unfold OrdInv ordL at hc2 ⊢
     simp only [push_log, pop_log, push_code, pop_code, Qc_append, hf, push_L, push_A, pop_A]
@@ -175,7 +175,10 @@ theorem OrdInv_take {k : Nat} (c1 : Cfg) (f : Sig → List Instr)
     rw [readyQ_of_activeQ he, hcode] at hc2
     rw [hcode]
     by_cases hs : e.2.2.okReady = true
-    · have := Qc_nil_of_take hN' hs h2 hD hP rfl
+    · have : Qc k c1.code = [] := by
+        rcases hN' with hN' | hN'
+        · exact Qc_nil_of_take hN' hs h2 hD hP rfl
+        · exact Qc_eq_nil hN' hP
       simp only [hs, if_true, this, List.append_nil, List.nil_append] at hc2 ⊢
       simpa [List.append_assoc] using hc2
     · simp only [hs] at hc2 ⊢
